@@ -9,8 +9,8 @@
    receiver ([norm]: kind, Value, Order, N, gradient, Hessian).  The theorems say
    more than the property: ANY two receivers of the same kind give the same
    result, provided each satisfies the side condition the proof computes
-   ([keeps] for AllocForTwo, [set_ok] for Set); "receiver is an operand" vs.
-   "fresh receiver" is the instance the property names.
+   ([keeps] for AllocForTwo; none for Set since HEAD d9fca78); "receiver is an
+   operand" vs. "fresh receiver" is the instance the property names.
 
    MATRICES / VECTORS: about ADV.C10.Model (heap + regenerated headers,
    storageLocation() as coded, both buffered schedules) and ADV.C08.Model, for
@@ -18,7 +18,7 @@
 From Coq Require Import Reals ZArith QArith List Bool Arith Lia.
 From ADV Require Import Base.Fl C01.Model C01.ModelR C10.Gen C10.Model C10.Spec
   C08.Spec C08.Model C08.ProofsComb C08.ProofsScalar C08.ProofsSet C08.ProofsComposite C08.ProofsRefuted
-  C08.ProofsMat C08.ProofsVec.
+  C08.ProofsMat C08.ProofsVec C08.ProofsReduce.
 Import ListNotations.
 
 (* ------------------------------------------------------------------ (1) the combinators *)
@@ -95,30 +95,34 @@ Theorem constant_receiver_acquires_derivatives :
 Proof. exact @constant_receiver_acquires. Qed.
 
 (* ------------------------------------------------------------------ Set, Min, Max, Abs *)
+(* no side condition beyond the storage invariant: Set reallocates a receiver of another N or Order
+   (HEAD d9fca78; the round-1 condition set_ok and the finding F-SETORD are retired) and never panics *)
 Theorem set_receiver_independent :
   forall A (F : Fl A) (r32 : A -> A) c c' b (s : St),
   rk (s c) = rk (s c') -> shape (s c) -> shape (s c') ->
-  set_ok c b s = true -> set_ok c' b s = true ->
   agree c c' (exec F r32 (ISet c b) s) (exec F r32 (ISet c' b) s).
 Proof. exact @set_indep. Qed.
-Theorem set_self_side_condition : forall A c (s : @St A), set_ok c (Rg c) s = true.
-Proof. exact @set_ok_self. Qed.
+Theorem set_never_panics :
+  forall A (F : Fl A) (r32 : A -> A) c b (s : St), shape (s c) -> exists s', exec F r32 (ISet c b) s = Ok s'.
+Proof. exact @set_total. Qed.
 
 Theorem min_max_receiver_independent :
   forall A (F : Fl A) (r32 : A -> A) c c' a b (s : St),
   rk (s c) = rk (s c') -> shape (s c) -> shape (s c') ->
-  set_ok c a s = true -> set_ok c b s = true -> set_ok c' a s = true -> set_ok c' b s = true ->
   agree c c' (exec F r32 (IMin c a b) s) (exec F r32 (IMin c' a b) s) /\
   agree c c' (exec F r32 (IMax c a b) s) (exec F r32 (IMax c' a b) s).
 Proof. exact @min_indep. Qed.
 
-Theorem abs_receiver_independent :
+Theorem abs_receiver_independent :     (* away from 0; at 0 Order/N are the receiver's own: F-C08-ABS0-ORDER *)
   forall A (F : Fl A) (r32 : A -> A) c c' a (s : St),
   rk (s c) = rk (s c') -> shape (s c) -> shape (s c') ->
-  set_ok c a s = true -> set_ok c' a s = true ->
   sign_of F (rval (rd s a)) <> 0%Z ->
-  agree c c' (exec F r32 (IAbs c a) s) (exec F r32 (IAbs c' a) s).
-Proof. exact @abs_indep. Qed.
+  agree c c' (exec F r32 (IAbs c a) s) (exec F r32 (IAbs c' a) s) /\
+  agree c c' (exec F r32 (IABSc c a) s) (exec F r32 (IABSc c' a) s).
+Proof. exact @abs_both_indep. Qed.
+Theorem abs_concrete_is_abs :          (* HEAD 2fc8894 *)
+  forall A (F : Fl A) (r32 : A -> A) c a (s : St), exec F r32 (IABSc c a) s = exec F r32 (IAbs c a) s.
+Proof. exact @ABS_concrete_is_abs. Qed.
 
 (* ------------------------------------------------------------------ operations made of several steps *)
 Theorem logistic_receiver_independent :
@@ -127,35 +131,35 @@ Theorem logistic_receiver_independent :
   agree c c' (exec F r32 (ILogistic c a) s) (exec F r32 (ILogistic c' a) s).
 Proof. exact @logistic_indep. Qed.
 
-Theorem sigmoid_receiver_independent :
+Theorem sigmoid_receiver_independent :   (* scratch t distinct from receiver and argument; see (2b) for t = a *)
   forall A (F : Fl A) (r32 : A -> A) c c' a t (s : St),
   shape (s c) -> shape (s c') -> shape (s t) -> rk (s c) = rk (s c') ->
   t <> c -> t <> c' -> hits t a = false ->
-  set_ok c' a s = true -> set_ok c a s = true ->
   agree c c' (exec F r32 (ISigmoid c a t) s) (exec F r32 (ISigmoid c' a t) s).
 Proof. exact @sigmoid_indep. Qed.
 
-Theorem log1pexp_receiver_independent :   (* all branches but 18 < v <= 33.3 *)
+(* ALL FOUR branches, c = a included, no side condition (HEAD 7035970: the branch 18 < v <= 33.3 computes
+   exp(-a) in a temporary; the round-1 theorem alias_log1pexp_refuted / finding F-C08-LOG1PEXP-ALIAS are
+   retired, the old witness is the regression case log1pexp_old_witness_regression) *)
+Theorem log1pexp_receiver_independent :
   forall A (F : Fl A) (r32 : A -> A) c c' a (s : St),
   shape (s c) -> shape (s c') -> rk (s c) = rk (s c') ->
-  set_ok c a s = true -> set_ok c' a s = true ->
-  let v := rval (rd s a) in
-  (fleb F v (lit F 18) = true \/ fleb F v (fofQ F (333 # 10)%Q) = false) ->
   agree c c' (exec F r32 (ILog1pExp c a) s) (exec F r32 (ILog1pExp c' a) s).
 Proof. exact @log1pexp_indep. Qed.
-
-Theorem alias_log1pexp_refuted :          (* the remaining branch: c.Log1pExp(c) = 2 exp(-c) *)
+Theorem alias_log1pexp :                  (* the instance the property names: c.Log1pExp(c) vs fresh.Log1pExp(c) *)
+  forall A (F : Fl A) (r32 : A -> A) c c' (s : St),
+  shape (s c) -> fresh F c' (rk (s c)) s ->
+  agree c c' (exec F r32 (ILog1pExp c (Rg c)) s) (exec F r32 (ILog1pExp c' (Rg c)) s).
+Proof. exact @ProofsComposite.alias_log1pexp. Qed.
+Theorem log1pexp_old_witness_regression : (* c = 20: both receivers now hold 20 + exp(-20) (was 2 exp(-20)) *)
   exists t t', exec (FlR Sp0) idR (ILog1pExp 0 (Rg 0)) st_l1p = Ok t /\
                exec (FlR Sp0) idR (ILog1pExp 1 (Rg 0)) st_l1p = Ok t' /\
-               rval (t 0%nat) = (exp (- 20) + exp (- 20))%R /\
-               rval (t' 1%nat) = (exp (- 20) + 20)%R /\
-               rval (t 0%nat) <> rval (t' 1%nat).
-Proof. exact ProofsRefuted.alias_log1pexp_refuted. Qed.
+               rval (t 0%nat) = (20 + exp (- 20))%R /\ rval (t' 1%nat) = (20 + exp (- 20))%R.
+Proof. exact ProofsRefuted.alias_log1pexp_old_witness. Qed.
 
 Theorem logadd_receiver_independent :
   forall A (F : Fl A) (r32 : A -> A) c c' a b t (s : St),
   shape (s c) -> shape (s c') -> rk (s c) = rk (s c') -> t <> c -> t <> c' ->
-  set_ok c a s = true -> set_ok c b s = true -> set_ok c' a s = true -> set_ok c' b s = true ->
   last_side c (la_prefix F r32 t a b) t b s = true -> last_side c' (la_prefix F r32 t a b) t b s = true ->
   last_side c (la_prefix F r32 t b a) t a s = true -> last_side c' (la_prefix F r32 t b a) t a s = true ->
   agree c c' (exec F r32 (ILogAdd c a b t) s) (exec F r32 (ILogAdd c' a b t) s).
@@ -164,10 +168,49 @@ Proof. exact @logadd_indep. Qed.
 Theorem logsub_receiver_independent :
   forall A (F : Fl A) (r32 : A -> A) c c' a b t (s : St),
   shape (s c) -> shape (s c') -> rk (s c) = rk (s c') -> t <> c -> t <> c' ->
-  set_ok c a s = true -> set_ok c' a s = true ->
   last_side c (ls_prefix F r32 t a b) t a s = true -> last_side c' (ls_prefix F r32 t a b) t a s = true ->
   agree c c' (exec F r32 (ILogSub c a b t) s) (exec F r32 (ILogSub c' a b t) s).
 Proof. exact @logsub_indep. Qed.
+
+(* ------------------------------------------------------------------ (2b) a scratch argument that is also the operand *)
+(* c.Sigmoid(x, x) leaves in the receiver what c.Sigmoid(x, t) with a separate scratch t leaves (the argument x is
+   destroyed, which is not the receiver's business).  LogAdd / LogSub with the scratch aliasing an operand: safe iff the
+   scratch is the operand the body does not read after its first step (LogAdd: the smaller one, LogSub: b) and [keeps]
+   holds for that first step — characterised exactly by the harness (tmpExpect; hunt classes expected-safe /
+   expected-unsafe, the former must agree), no theorem. *)
+Theorem sigmoid_scratch_is_argument :
+  forall A (F : Fl A) (r32 : A -> A) c x t (s : St),
+  shape (s c) -> shape (s x) -> shape (s t) -> rk (s t) = rk (s x) ->
+  c <> x -> t <> c -> t <> x ->
+  agree c c (exec F r32 (ISigmoid c (Rg x) x) s) (exec F r32 (ISigmoid c (Rg x) t) s).
+Proof. exact @ProofsComposite.sigmoid_scratch_is_argument. Qed.
+
+(* ------------------------------------------------------------------ (1b) reductions with the receiver among the elements *)
+(* r := v.At(k); r.Vmean(v) (VdotV, Vnorm, Mtrace, SmoothMax, LogSmoothMax alike): the first step clears the receiver,
+   so for EVERY carrier, vector and state the whole call does not depend on the value the receiver held — the aliased
+   element cannot contribute, while a fresh receiver's result depends on it: finding F-C08-REDUCE-ELEM *)
+Theorem reduction_overwrites_receiver_element :
+  forall A (F : Fl A) (r32 : A -> A) (i : instr A) r (s : St) v,
+  clears_first i r -> exec F r32 i (C01.Model.upd s r (with_val (s r) v)) = exec F r32 i s.
+Proof. exact @reduction_forgets_receiver. Qed.
+Example reduction_receiver_may_be_an_element :   (* the statement covers the aliased call: receiver 1 = v[1] *)
+  clears_first (IVmean 1 [Rg 0; Rg 1] : instr Z) 1 /\ clears_first (IVnorm 1 [Rg 0; Rg 1] 9 : instr Z) 1.
+Proof. split; constructor. discriminate. Qed.
+Theorem vmean_receiver_in_vector_refuted :      (* v = (3, 5), r = v[1]: 3 instead of 4 *)
+  exists t t', exec (FlR Sp0) idR (IVmean 1 [Rg 0; Rg 1]) st_red = Ok t /\
+               exec (FlR Sp0) idR (IVmean 2 [Rg 0; Rg 1]) st_red = Ok t' /\
+               rval (t 1%nat) = 3%R /\ rval (t' 2%nat) = 4%R.
+Proof. exact ProofsReduce.vmean_receiver_in_vector_refuted. Qed.
+Theorem mtrace_receiver_on_diagonal_refuted :   (* diagonal (3, 5), r = m[0][0]: 5 instead of 8 *)
+  exists t t', exec (FlR Sp0) idR (IMtrace 0 [Rg 0; Rg 1]) st_red = Ok t /\
+               exec (FlR Sp0) idR (IMtrace 2 [Rg 0; Rg 1]) st_red = Ok t' /\
+               rval (t 0%nat) = 5%R /\ rval (t' 2%nat) = 8%R.
+Proof. exact ProofsReduce.mtrace_receiver_on_diagonal_refuted. Qed.
+Theorem vdotv_receiver_in_vector_refuted :      (* r.VdotV(v, v), r = v[1]: 90 instead of 34 *)
+  exists t t', exec (FlR Sp0) idR (IVdotV 1 [Rg 0; Rg 1] [Rg 0; Rg 1] 9) st_red = Ok t /\
+               exec (FlR Sp0) idR (IVdotV 2 [Rg 0; Rg 1] [Rg 0; Rg 1] 9) st_red = Ok t' /\
+               rval (t 1%nat) = 90%R /\ rval (t' 2%nat) = 34%R.
+Proof. exact ProofsReduce.vdotv_receiver_in_vector_refuted. Qed.
 
 (* the hypotheses are satisfiable by a non-trivial instance: x.Mul(x, y), both of order 2 over two variables *)
 Example alias_hypotheses_nontrivial :
